@@ -263,9 +263,12 @@ class Run:
             json.dump(ev, f, indent=1, sort_keys=True, default=str)
             f.write("\n")
         os.replace(tmp, path)
-        check_evidence_shape(ev)
         for line in lines:
             print(line)
+        if not real:
+            # a run that found nothing must not be vacuous; a run that reports violations is never turned into a
+            # harness error by its counters (a violation at the first case of every instance leaves them small)
+            check_evidence_shape(ev)
         c = self.cov
         print(
             f"{self.prop} tier={self.tier} seed={self.seed} evaluations={c.get('evaluations')} "
